@@ -278,6 +278,20 @@ fn has_tparam(ty: &Ty) -> bool {
     }
 }
 
+/// Instantiation stops at types of this many constructors: a program whose generic functions or types call for ever
+/// larger instances of themselves (polymorphic recursion) has no finite set of instances.
+const MAX_INSTANCE_TYPE_SIZE: usize = 1024;
+
+fn ty_size(ty: &Ty) -> usize {
+    match ty {
+        Ty::TTuple { typs } => 1 + typs.iter().map(ty_size).sum::<usize>(),
+        Ty::TApp { ty, args } => 1 + ty_size(ty.as_ref()) + args.iter().map(ty_size).sum::<usize>(),
+        Ty::TArray { elem, .. } | Ty::TVec { elem } | Ty::TRef { elem } => 1 + ty_size(elem),
+        Ty::TFunc { params, ret_ty } => 1 + params.iter().map(ty_size).sum::<usize>() + ty_size(ret_ty),
+        _ => 1,
+    }
+}
+
 fn update_constructor_type(constructor: &Constructor, new_ty: &Ty) -> Constructor {
     match (constructor, new_ty) {
         (Constructor::Enum(enum_constructor), Ty::TEnum { name }) => {
@@ -499,6 +513,8 @@ struct Ctx {
     // Index for inherent methods: (base_type, method_name) -> generic_func_name
     // Example: ("Point", "new") -> "impl_inherent_Point_TParam_U_TParam_V_new"
     inherent_method_index: IndexMap<(String, String), String>,
+    // the first function whose instance was refused because its type arguments are too large
+    too_large: Option<String>,
 }
 
 impl Ctx {
@@ -525,6 +541,7 @@ impl Ctx {
             out: Vec::new(),
             work: VecDeque::new(),
             inherent_method_index,
+            too_large: None,
         }
     }
 
@@ -536,6 +553,10 @@ impl Ctx {
             return n.clone();
         }
         let spec = spec_name_for(name, &s);
+        if s.values().map(ty_size).sum::<usize>() > MAX_INSTANCE_TYPE_SIZE {
+            self.too_large.get_or_insert_with(|| name.to_string());
+            return spec;
+        }
         self.instances
             .insert((name.to_string(), key.clone()), spec.clone());
         if !self.queued.contains(&(name.to_string(), key.clone())) {
@@ -850,6 +871,8 @@ struct TypeMono<'a> {
     // snapshot of original generic enum defs
     enum_base: IndexMap<TastIdent, EnumDef>,
     struct_base: IndexMap<TastIdent, StructDef>,
+    // the first generic type whose instance was refused because its type arguments are too large
+    too_large: Option<String>,
 }
 
 impl<'a> TypeMono<'a> {
@@ -861,6 +884,7 @@ impl<'a> TypeMono<'a> {
             map: IndexMap::new(),
             enum_base,
             struct_base,
+            too_large: None,
         }
     }
 
@@ -879,6 +903,10 @@ impl<'a> TypeMono<'a> {
             )
         };
         let new_name = TastIdent::new(&format!("{}{}", name, suffix));
+        if args.iter().map(ty_size).sum::<usize>() > MAX_INSTANCE_TYPE_SIZE {
+            self.too_large.get_or_insert_with(|| name.to_string());
+            return new_name;
+        }
         self.map.insert(key.clone(), new_name.clone());
 
         let ident = TastIdent::new(name);
@@ -1175,6 +1203,17 @@ fn rewrite_expr_types(e: MonoExpr, m: &mut TypeMono<'_>) -> MonoExpr {
 // Monomorphize Core IR by specializing generic functions per concrete call site.
 // Produces a file containing only monomorphic functions reachable from monomorphic roots.
 pub fn mono(genv: GlobalTypeEnv, file: core::File) -> (MonoFile, GlobalMonoEnv) {
+    match mono_checked(genv, file) {
+        Ok(result) => result,
+        Err(message) => panic!("{}", message),
+    }
+}
+
+/// Monomorphisation; `Err` when the program has no finite set of instances (see `MAX_INSTANCE_TYPE_SIZE`).
+pub fn mono_checked(
+    genv: GlobalTypeEnv,
+    file: core::File,
+) -> Result<(MonoFile, GlobalMonoEnv), String> {
     let mut monoenv = GlobalMonoEnv::from_genv(genv);
     // Build original function map
     let mut orig_fns: IndexMap<String, core::Fn> = IndexMap::new();
@@ -1222,6 +1261,10 @@ pub fn mono(genv: GlobalTypeEnv, file: core::File) -> (MonoFile, GlobalMonoEnv) 
         });
     }
 
+    if let Some(name) = ctx.too_large {
+        return Err(too_large_message("function", &name));
+    }
+
     // Rewrite function signatures and bodies
     let mut m = TypeMono::new(&mut monoenv);
     let mut new_fns = Vec::new();
@@ -1249,10 +1292,21 @@ pub fn mono(genv: GlobalTypeEnv, file: core::File) -> (MonoFile, GlobalMonoEnv) 
         });
     }
 
+    if let Some(name) = m.too_large.take() {
+        return Err(too_large_message("type", &name));
+    }
+
     // Drop all generic enum defs to avoid Go backend panics
     m.monoenv.retain_enums(|_n, def| def.generics.is_empty());
     m.monoenv.retain_structs(|_n, def| def.generics.is_empty());
 
     let result = MonoFile { toplevels: new_fns };
-    (result, monoenv)
+    Ok((result, monoenv))
+}
+
+fn too_large_message(kind: &str, name: &str) -> String {
+    format!(
+        "generic {} {} is needed at a type of more than {} constructors; polymorphic recursion has no finite set of instances",
+        kind, name, MAX_INSTANCE_TYPE_SIZE
+    )
 }
